@@ -5,19 +5,26 @@
 (* list for replay on the real code.  The generator configs (BurnsFirst) list  *)
 (* the burns before the mints: the mergers work per tag, the relative order   *)
 (* of a burn and a mint is immaterial (the exhaustive configs explore it).    *)
+(* Several blocks in a row (MaxBlocks > 1): hist carries a "block" marker; the *)
+(* generator configs bound the ops of a several-block list by MaxOps and mint  *)
+(* in the first block only.                                                    *)
 EXTENDS EventDB, Json
-CONSTANT BurnsFirst
+CONSTANTS BurnsFirst, MaxOps
 VARIABLE hist
 S12 == <<"a1", "a2">>
 S23 == <<"a2", "a3">>
 Sets2 == {S12, S23}
-A_EmitBurn == (\E c \in Client, e \in Eth : (BurnsFirst => Len(B.mints) = 0) /\ EmitBurn(c, e) /\ hist' = Append(hist, [op |-> "burn", c |-> c, eth |-> e])) /\ TRUE
-A_EmitMint == (\E c \in Client, S \in SignerSets : EmitMint(c, S) /\ hist' = Append(hist, [op |-> "mint", c |-> c, sigs |-> S])) /\ TRUE
+NOps == Cardinality({i \in 1..Len(hist) : hist[i].op # "block"})
+A_EmitBurn == (\E c \in Client, e \in Eth : (BurnsFirst => Len(B.mints) = 0) /\ (blk > 1 => NOps < MaxOps) /\ EmitBurn(c, e) /\ hist' = Append(hist, [op |-> "burn", c |-> c, eth |-> e])) /\ TRUE
+A_EmitMint == (\E c \in Client, S \in SignerSets : (BurnsFirst => blk = 1) /\ (blk > 1 => NOps < MaxOps) /\ EmitMint(c, S) /\ hist' = Append(hist, [op |-> "mint", c |-> c, sigs |-> S])) /\ TRUE
 A_Merge == Merge /\ UNCHANGED hist
 A_Store == Store /\ UNCHANGED hist
-MNext == A_EmitBurn \/ A_EmitMint \/ A_Merge \/ A_Store
+A_NextBlock == NextBlock /\ NOps < MaxOps /\ hist' = Append(hist, [op |-> "block"])
+MNext == A_EmitBurn \/ A_EmitMint \/ A_Merge \/ A_Store \/ A_NextBlock
 MSpec == Init /\ hist = <<>> /\ [][MNext]_<<vars, hist>>
 \* generator: one line per op list (printed when the list is complete, i.e. at the merge step)
-GPrint == phase = "merged" => PrintT(<<"BEHAVIOUR", ToJson(hist)>>)
+GPrint == (phase = "merged" /\ hist # <<>> /\ hist[Len(hist)].op # "block") => PrintT(<<"BEHAVIOUR", ToJson(hist)>>)
 GView == <<phase, hist>>
+\* the exhaustive several-block configs identify states without the op list
+MView == vars
 =============================================================================
